@@ -1,12 +1,15 @@
 """C29 Process-based sync groups share device variables correctly
 
 domain : 1-3 generated device classes (a later one may derive from an earlier
-         one and re-declare its first variables with other formats) with 1-6
+         one and re-declare some of its variables with other formats - the
+         first ones, or later ones only, so that a class in the middle of a
+         chain does not mention what the class below it re-declares) with 1-6
          DeviceVars of random formats (B H I Q b h i q x and multi-element
          ones such as 3B, 3H, 2I), 1-4 device instances in one group;
          values written in the controlling process, read and overwritten in a
          child process started with the group's own spawn context, read back
-         in the parent.
+         in the parent, which then writes again (often the value it had
+         written before) and reads once more.
 oracle : every value read on one side equals the last value written on the
          other; a variable nobody wrote keeps its value (variables of
          different devices never share storage).
@@ -56,13 +59,22 @@ def letters(f):
     return list(f)
 
 
-def effective(classes, bases):
+def effective(classes, bases, offsets=None):
     """formats of v0, v1, ... as an instance of each class sees them: a
-    derived class re-declares the first len(own) names of its base"""
+    derived class declares len(own) names starting at v<offset> - it
+    re-declares those its base has and adds the others (with an offset, a
+    class in the middle of a chain does not mention the first names)"""
     eff = []
     for ci, own in enumerate(classes):
         b = bases[ci] if bases else None
-        eff.append(list(own) + (eff[b][len(own):] if b is not None else []))
+        off = offsets[ci] if offsets and b is not None else 0
+        cur = list(eff[b]) if b is not None else []
+        for k, f in enumerate(own):
+            if off + k < len(cur):
+                cur[off + k] = f
+            else:
+                cur.append(f)
+        eff.append(cur)
     return eff
 
 
@@ -78,7 +90,13 @@ def case_strategy(draw):
                for _ in range(ncls)]
     bases = [None] + [draw(st.none() | st.integers(0, ci - 1))
                       for ci in range(1, ncls)]
-    eff = effective(classes, bases)
+    offsets = [0] * ncls
+    for ci in range(1, ncls):
+        if bases[ci] is not None and draw(st.booleans()):
+            n = len(effective(classes[:ci], bases[:ci],
+                              offsets[:ci])[bases[ci]])
+            offsets[ci] = draw(st.integers(0, n))
+    eff = effective(classes, bases, offsets)
     insts = [draw(st.integers(0, ncls - 1))
              for _ in range(draw(st.integers(1, 4)))]
     allvars = [(i, k) for i, c in enumerate(insts)
@@ -101,8 +119,21 @@ def case_strategy(draw):
             if draw(st.integers(0, 2)):
                 out.append([i, k, val(eff[insts[i]][k])])
         return out
+    parent = phase()
+    child = phase()
+    # afterwards the controlling process writes again, often the very value
+    # it had written before the child changed it
+    parent2 = []
+    for (i, k) in allvars:
+        r = draw(st.integers(0, 3))
+        earlier = [v for a, b, v in parent if (a, b) == (i, k)]
+        if r == 0 and earlier:
+            parent2.append([i, k, earlier[-1]])
+        elif r == 1:
+            parent2.append([i, k, val(eff[insts[i]][k])])
     return {"classes": classes, "bases": bases, "insts": insts,
-            "parent": phase(), "child": phase(),
+            "offsets": offsets,
+            "parent": parent, "child": child, "parent2": parent2,
             # the devices were part of a plain (slow) sync group before
             "veteran": draw(st.booleans())}
 
@@ -137,13 +168,15 @@ def run_case(case):
     from ebpfcat.ebpfcat import ParallelEtherCat, ProcessSyncGroup
     classes, insts = case["classes"], case["insts"]
     bases = case.get("bases") or [None] * len(classes)
-    eff = effective(classes, bases)
+    offsets = case.get("offsets") or [0] * len(classes)
+    eff = effective(classes, bases, offsets)
     tmp = tempfile.mkdtemp(prefix="vf_c29_", dir="/dev/shm"
                            if os.path.isdir("/dev/shm") else None)
     modname = "vfc29_" + os.path.basename(tmp).replace("-", "_")
     src = []
     for ci, fmts in enumerate(classes):
-        body = "\n".join(f"    v{k} = DeviceVar({f!r}, write=True)"
+        off = offsets[ci] if bases[ci] is not None else 0
+        body = "\n".join(f"    v{off + k} = DeviceVar({f!r}, write=True)"
                          for k, f in enumerate(fmts))
         parent = "Device" if bases[ci] is None else f"Dev{bases[ci]}"
         src.append(f"class Dev{ci}({parent}):\n    FMTS = {eff[ci]!r}\n"
@@ -216,6 +249,26 @@ def run_case(case):
                             f"v{k}:{eff[insts[i]][k]}, expected {want!r} "
                             f"(child wrote {[c for c in case['child'] if c[:2] == [i, k]]})",
                             bucket="c->p")
+        # ---- the controlling process writes again
+        try:
+            for i, k, v in case.get("parent2") or []:
+                setattr(devs[i], f"v{k}",
+                        tuple(v) if isinstance(v, list) else v)
+                model[i, k] = v
+        except Exception as e:
+            return fail(f"writing a device variable again in the controlling "
+                        f"process raised {type(e).__name__}: {e!r}",
+                        bucket="parent-access")
+        for (i, k), want in model.items():
+            got = norm(getattr(devs[i], f"v{k}"))
+            if got != want:
+                return fail(f"parent reads {got!r} for device {i} variable "
+                            f"v{k}:{eff[insts[i]][k]} after writing again, "
+                            f"expected {want!r} (parent wrote "
+                            f"{[c[2] for c in case['parent'] if c[:2] == [i, k]]}"
+                            f", child {[c[2] for c in case['child'] if c[:2] == [i, k]]}"
+                            f", parent again {[c[2] for c in case['parent2'] if c[:2] == [i, k]]})",
+                            bucket="p2")
     finally:
         if proc is not None and proc.is_alive():
             proc.kill()
